@@ -168,8 +168,61 @@ def load(mod, **kw):
         for nm, prox in px.items():
             if nm in getattr(m, '__dict__', {}):
                 setattr(m, nm, prox)
+        # code under contract may live in another module of the package and only be re-exported by this one: every module of the
+        # working tree loaded so far sees the same symbolic constants
+        import sys as _sys
+        for name, other in list(_sys.modules.items()):
+            if other is not None and name.startswith(loader.ALIAS + '.'):
+                for nm, prox in px.items():
+                    if nm in other.__dict__ and other.__dict__[nm] is object.__getattribute__(prox, '_real'):
+                        setattr(other, nm, prox)
+        for other in [m] + [o for n_, o in list(_sys.modules.items()) if o is not None and o is not m and n_.startswith(loader.ALIAS + '.')]:
+            _recompute_constants(other)
         _loaded[mod] = m
     return _loaded[mod]
+
+
+_RECOMPUTED = set()
+
+
+def _recompute_constants(module):
+    """Module-level float constants written in terms of math / numpy (`_SQRT_2PI = math.sqrt(2 * math.pi)`) were evaluated while the
+    module was imported, before `math` / `np` were replaced by the symbolic proxies.  Their defining expressions -- read from the
+    source, in order -- are evaluated again under the proxies, so that they denote the same symbolic constants as the expression
+    would inside a function.  Anything that does not evaluate, or does not become symbolic, is left as it is."""
+    import ast
+    from .pysym import SymReal, SymInt
+    path = getattr(module, '__file__', None)
+    if not path or module.__name__ in _RECOMPUTED:
+        return
+    _RECOMPUTED.add(module.__name__)
+    try:
+        with open(path) as f:
+            tree = ast.parse(f.read())
+    except (OSError, SyntaxError):
+        return
+    g = module.__dict__
+    changed = set()
+    for st in tree.body:
+        if isinstance(st, ast.Assign) and len(st.targets) == 1 and isinstance(st.targets[0], ast.Name):
+            name, val = st.targets[0].id, st.value
+        elif isinstance(st, ast.AnnAssign) and st.value is not None and isinstance(st.target, ast.Name):
+            name, val = st.target.id, st.value
+        else:
+            continue
+        names = {n.id for n in ast.walk(val) if isinstance(n, ast.Name)}
+        if not (names & {'math', 'np', 'numpy'} or names & changed):
+            continue
+        old = g.get(name)
+        if isinstance(old, bool) or not isinstance(old, (int, float)):
+            continue
+        try:
+            new = eval(compile(ast.Expression(val), path, 'eval'), g)   # noqa: S307 -- the module's own expression, in its own namespace
+        except Exception:  # noqa: BLE001
+            continue
+        if isinstance(new, (SymReal, SymInt)):
+            g[name] = new
+            changed.add(name)
 
 
 DIM = {
